@@ -304,6 +304,26 @@ def main():
         else:
             rep.violation("static:" + src, {"why": "expected %s, compiler says %s %s" % ("E%d" % exp if exp else "acceptance", hh, codes),
                                             "source": src, "harness_request": "alpha\tcheck\tm.pn\t" + esc(src), "implementation": ha[:300]})
+    # F71: a function head (`fn f(p: []i32);`) whose definition lives in another module with another signature: nothing
+    # compares the two, so the caller passes `arr` without `&` and the definition writes through a slice pointer
+    liar = [("main.pn", "fn poke_arr(p: []i32);\nfn main() -> i32\n{\n\tvar arr: [2]i32 = [1, 2];\n\tpoke_arr(arr);\n\treturn: arr[0]\n}\n"),
+            ("lib.pn", "pub fn poke_arr(p: &[]i32)\n{\n\tp[0] = 50;\n}\n")]
+    la = run_harness_serial(["alpha\trun\t" + "\t".join(x for nm, src in liar for x in (nm, esc(src)))])[0]
+    lh, ld = kv(la)
+    total += 1
+    if lh == "ok" and ld.get("status") != "1":
+        rep.violation("c08:head-and-definition-disagree-across-modules", {
+            "why": "`arr` was passed without `&` to a function declared with a view parameter, and the call changed it (status %s instead of 1): "
+                   "the definition in the other module takes `&[]i32`" % ld.get("status"), "files": dict(liar), "implementation": la[:300]})
+    # F72: an aggregate copied into a member of a structure literal that is itself a direct call argument
+    cp = ("struct S\n{\n\tv: i32,\n}\nstruct O\n{\n\ts: S,\n\tn: i32,\n}\nfn foo(o: O) -> i32\n{\n\treturn: o.s.v\n}\nfn main() -> i32\n{\n"
+          "\tvar s = S { v: 3 };\n\treturn: foo(O { s: s, n: 1 })\n}\n")
+    ca_ = run_harness_serial(["alpha\tcheck\tm.pn\t" + esc(cp)])[0]
+    ch2, cd2 = kv(ca_)
+    total += 1
+    if not (ch2 == "err" and 533 in codes_of(cd2)):
+        rep.violation("c08:aggregate-copied-inside-a-structure-literal-argument", {
+            "why": "`foo(O { s: s, n: 1 })` copies the structure `s` into the literal; E533 expected as for `var o = O { s: s, n: 1 };`: " + ca_[:200], "source": cp})
     # copy matrix
     cm = copy_matrix()
     ch = run_harness(["alpha\tcheck\tm.pn\t" + esc(src) for _, _, src in cm])
